@@ -31,12 +31,15 @@ def sl_term(t):
     return (opt(t[0]), opt(t[1]), opt(t[2]))
 
 
-def op_term(op):
+def op_term(op, prev=None):
+    """prev: the contents before the operation (the argument when the receiver itself is passed, marker "self")"""
     k = op[0]
     if k == "SetInt":
         return C(k, op[1], op[2])
+    if k == "ImulQ":
+        return C(k, op[1], op[2])
     if k == "SetSlice":
-        return C(k, sl_term(op[1]), list(op[2]))
+        return C(k, sl_term(op[1]), list(prev if op[-1] == "self" else op[2]))
     if k == "DelInt":
         return C(k, op[1])
     if k == "DelSlice":
@@ -44,7 +47,7 @@ def op_term(op):
     if k in ("Append", "Remove", "Imul"):
         return C(k, op[1])
     if k in ("Extend", "Iadd"):
-        return C(k, list(op[1]))
+        return C(k, list(prev if op[-1] == "self" else op[1]))
     if k == "Insert":
         return C(k, op[1], op[2])
     if k == "Pop":
@@ -72,8 +75,11 @@ def target_term(case):
 
 
 def to_term(case, obs):
-    return (target_term(case), C(case["vk"]), list(case["init"]),
-            [(op_term(op), obs_term(ob)) for op, ob in zip(case["ops"], obs)])
+    h, prev = [], list(case["init"])
+    for op, ob in zip(case["ops"], obs):
+        h.append((op_term(op, prev), obs_term(ob)))
+        prev = list(ob["after"])
+    return (target_term(case), C(case["vk"]), list(case["init"]), h)
 
 
 def op_shape(op):
@@ -134,7 +140,7 @@ def hint_apply(vk, cur, op):
             if v is not None:
                 cur[op[1]] = v
         elif k == "SetSlice":
-            vs = [_v(vk, a) for a in op[2]]
+            vs = [_v(vk, a) for a in (cur if op[-1] == "self" else op[2])]
             if None not in vs:
                 cur[slice(*op[1])] = vs
         elif k == "DelInt":
@@ -146,11 +152,13 @@ def hint_apply(vk, cur, op):
             if v is not None:
                 cur.append(v)
         elif k in ("Extend", "Iadd"):
-            vs = [_v(vk, a) for a in op[1]]
+            vs = [_v(vk, a) for a in (cur if op[-1] == "self" else op[1])]
             if None not in vs:
                 cur.extend(vs)
         elif k == "Imul":
             cur *= op[1]
+        elif k == "ImulQ":
+            pass
         elif k == "Insert":
             v = _v(vk, op[2])
             if v is not None:
@@ -220,9 +228,12 @@ def arg_kind(rnd):
     return ["loose"] if r < 0.12 else ["gen"] if r < 0.24 else ["tuple"] if r < 0.3 else []
 
 
-def gen_op(rnd, vk, cur):
+def gen_op(rnd, vk, cur, allow_self=False):
     n = len(cur)
     k = rnd.choice(KINDS)
+    if allow_self and k in ("SetSlice", "Extend", "Iadd") and rnd.random() < 0.12:
+        # aliased argument: the receiver itself (the model takes the snapshot before the mutation)
+        return [k, gen_slice(rnd, n), None, "self"] if k == "SetSlice" else [k, None, "self"]
     if k == "SetInt":
         return [k, gen_index(rnd, n, huge=10 ** 30), gen_items(rnd, vk, 1, cur)[0]]
     if k == "SetSlice":
@@ -239,8 +250,15 @@ def gen_op(rnd, vk, cur):
     if k in ("Extend", "Iadd"):
         return [k, gen_items(rnd, vk, rnd.choice([0, 1, 1, 2, 3, 5]), cur)] + arg_kind(rnd)
     if k == "Imul":
+        r = rnd.random()
+        if r < 0.3:        # a number that is not an integer type: TypeError, nothing changes
+            return ["ImulQ", rnd.choice([-3, -1, 0, 1, 2, 3, 4, 5, 8]), rnd.choice([1, 2, 4]),
+                    rnd.choice(["float", "float", "fraction", "decimal"])]
+        if r < 0.4:
+            return [k, rnd.choice([0, 1]), "bool"]
         m = rnd.choice([-1, 0, 1, 2, 2, 3])
-        return [k, m if n * m <= 40 else rnd.choice([0, 1])]
+        m = m if n * m <= 40 else rnd.choice([0, 1])
+        return [k, m, "numpy"] if r < 0.5 else [k, m]
     if k == "Insert":
         return [k, gen_index(rnd, n), gen_items(rnd, vk, 1, cur)[0]]
     if k == "Pop":
@@ -277,9 +295,9 @@ def gen_case(rnd, ctx, maxops, maxinit, target=None, bounds=None):
     cur = list(init)
     ops = []
     for _ in range(rnd.randint(1, maxops)):
-        op = gen_op(rnd, vk, cur)
+        op = gen_op(rnd, vk, cur, allow_self=True)
         ops.append(op)
-        ctx.count("op:" + op_shape(op))
+        ctx.count("op:" + op_shape(op) + ("/self" if op[-1] == "self" else ""))
         hint_apply(vk, cur, op)
         if len(cur) > 60:
             break
@@ -301,7 +319,16 @@ def corpus():
             ["SetSlice", [0, 0, None], []], ["Sort", False], ["Sort", False], ["Sort", True, 3], ["Sort", False, 2], ["Reverse"],
             ["SetInt", -1, 104], ["SetInt", 7, 200], ["SetInt", 7, 1], ["Pop", -9], ["Pop", None],
             ["Insert", -100, 3], ["Insert", 100, 103], ["Imul", 2], ["Imul", 0], ["Imul", 3], ["Clear"], ["Clear"],
-            ["Remove", 3], ["Append", 3], ["Remove", 103], ["Remove", 3]]))
+            ["Remove", 3], ["Append", 3], ["Remove", 103], ["Remove", 3],
+            ["Extend", [1, 2]], ["Extend", None, "self"], ["Iadd", None, "self"], ["SetSlice", [1, 2, None], None, "self"],
+            ["SetSlice", [None, None, -1], None, "self"], ["ImulQ", 1, 2, "float"], ["ImulQ", -1, 1, "float"],
+            ["ImulQ", 1, 2, "fraction"], ["ImulQ", 1, 4, "decimal"], ["ImulQ", 5, 2, "float"], ["Imul", 1, "bool"],
+            ["Imul", 2, "numpy"], ["Imul", 0, "bool"]]))
+        if tgt == "plain":      # no validator at all (the default _validate_everything)
+            cs.append(dict(vk="VAll", target="plain", channel="notifier", init=[1, 2, 3], ops=[
+                ["Extend", None, "self"], ["Iadd", None, "self"], ["SetSlice", [1, 2, None], None, "self"],
+                ["SetSlice", [None, None, 2], None, "self"], ["ImulQ", 1, 2, "float"], ["ImulQ", 0, 1, "float"],
+                ["ImulQ", -1, 2, "fraction"], ["ImulQ", 3, 4, "decimal"], ["Imul", 0, "bool"], ["Extend", None, "self"]]))
         cs.append(dict(vk="VInt", target=tgt, channel=ch, init=[0, 1, 2, 3, 4, 5, 6, 7], ops=[
             ["SetSlice", [None, None, 3], [9, 9]], ["SetSlice", [None, None, 3], [9, 9, 200]],
             ["SetSlice", [None, None, 3], [9, 200]],
@@ -332,7 +359,8 @@ def grid_ops(b):
         ops += [["DelInt", i], ["SetInt", i, 99], ["SetInt", i, 199], ["SetInt", i, 200], ["Insert", i, 99],
                 ["Insert", i, 200], ["Pop", i], ["Imul", i], ["Remove", 10 + i]]
     ops += [["Pop", None], ["Append", 5], ["Append", 105], ["Append", 200], ["Extend", [5, 6]], ["Extend", []],
-            ["Extend", [5, 200]], ["Iadd", [5, 106]], ["Iadd", []], ["Clear"], ["Reverse"], ["Sort", False, 0],
+            ["Extend", [5, 200]], ["Iadd", [5, 106]], ["Iadd", []], ["ImulQ", 1, 2, "float"], ["ImulQ", 5, 2, "float"],
+            ["ImulQ", 2, 1, "float"], ["ImulQ", -1, 2, "float"], ["Clear"], ["Reverse"], ["Sort", False, 0],
             ["Sort", True, 0], ["Sort", False, 3], ["Sort", True, 3], ["Sort", True, 2]]
     for s in slices(b):
         ops.append(["DelSlice", s])
